@@ -54,6 +54,9 @@ def make_mask(seed, lead, K, T, kind, tag):
         m[..., r.integers(0, T)] = 1.0
     elif base == 'x1000':
         m = r.integers(0, 4, size=shape).astype(float) / 2.0 * 1000.0
+    elif base == 'f32small':
+        # single-precision mask whose sum over time is far below the float32 machine epsilon (but far above 1e-10)
+        m = (r.integers(1, 4, size=shape).astype(np.float32) * np.float32(1e-9))
     else:
         raise ValueError(kind)
     return m
@@ -123,7 +126,7 @@ def run_psd(key):
         else:
             mask = mask_c.copy()
     kw = dict(sensor_dim=s - nd if neg else s, time_dim=t - nd if neg else t, normalize=normalize)
-    if src:
+    if src or k is not None:
         kw['source_dim'] = k - nd if neg else k
     obs.setflags(write=False)
     snap_o = obs.copy()
@@ -146,6 +149,8 @@ def run_psd(key):
         got, want = got / amp ** 2, want / amp ** 2     # judged relative to the level of the data
     if exact and (not normalize or kind == 'none') and kind not in ('time_x1000', 'src_x1000'):
         bad = tol.mismatch(got, want, 1e-14, what='PSD (Gaussian-integer data)')
+    elif kind.endswith('f32small'):
+        bad = tol.mismatch(got, want, 2e-6, what='PSD (single-precision mask)')   # the weights are float32
     else:
         bad = tol.mismatch(got, want, tol.TIGHT, what='PSD')
     if bad:
@@ -215,8 +220,8 @@ def run_condition(key):
 def subchecks(tier, seed):
     thorough = tier == 'thorough'
     subs = []
-    kinds = ('none', 'time_float', 'time_bool', 'time_zero', 'time_onehot', 'time_x1000',
-             'src_float', 'src_bool', 'src_zero')
+    kinds = ('none', 'time_float', 'time_bool', 'time_zero', 'time_onehot', 'time_x1000', 'time_f32small',
+             'src_float', 'src_bool', 'src_zero', 'src_f32small')
     triples = TRIPLES if thorough else TRIPLES[:8]
 
     def cases():
@@ -232,7 +237,9 @@ def subchecks(tier, seed):
                         for t in range(nd):
                             if t == s or (timeonly and t != nd - 1):
                                 continue
-                            ks = [k for k in range(nd) if k != t] if src else [None]
+                            # a mask without source axis: source_dim is irrelevant, whatever the caller passes
+                            ks = [k for k in range(nd) if k != t] if src else \
+                                ([None] + (sorted({0, nd - 3}) if timeonly and nd >= 3 else []))
                             for k in ks:
                                 for neg in (False, True):
                                     for normalize in (True, False):
